@@ -13,9 +13,10 @@ CONSTANTS
   MSV = {"M1", "M2", "M3", "M4", "M5", "M6"}
   MSI = {"MBadEmpty", "MBadRe", "MNone"}
   Cmts = {"c1", "c2", "big"}
-  StartOffs = {0, 1, 2}
+  StartOffs = {0, 2, 3, 4}
   EndOffs = {0, 2, 4}
   PoolIds = {"r1", "r2"}
+  Vias = {"lib", "api"}
   Ops = {"set", "expire", "merge", "gc", "restart", "mutes", "alertgc"}
 INVARIANTS Emit
 CHECK_DEADLOCK FALSE
